@@ -576,37 +576,52 @@ def explore(fn, args, assumptions, models, kwargs=None, max_loop=64):
 SECOND = {'agree': 0, 'disagree': 0, 'inconclusive': 0}
 
 
-def second_solver(solver, verdict):
-    """Thorough tier: re-decide the same query, dumped as SMT-LIB2, with the system z3 4.8.12 binary (a different build of
-    the solver).  Returns False on a definite disagreement or an `(error` line; unknown/timeouts of the second solver are counted, not fatal."""
-    import os
+def _run_second(cmd, path, verdict, key):
     import subprocess
+    try:
+        out = subprocess.run(cmd + [path], capture_output=True, text=True, timeout=90)
+    except subprocess.TimeoutExpired:
+        SECOND['inconclusive'] += 1
+        return True
+    text = out.stdout + out.stderr
+    first = out.stdout.strip().splitlines()[0] if out.stdout.strip() else ''
+    if '(error' in text or 'rror' in out.stderr:
+        SECOND['disagree'] += 1
+        SECOND.setdefault('errors', []).append((key, text.strip()[:200]))
+        return False
+    if first in ('sat', 'unsat'):
+        if first == verdict:
+            SECOND['agree'] += 1
+            SECOND[key] = SECOND.get(key, 0) + 1
+            return True
+        SECOND['disagree'] += 1
+        return False
+    SECOND['inconclusive'] += 1
+    return True
+
+
+def second_solver(solver, verdict):
+    """Thorough tier: re-decide the same query, dumped as SMT-LIB2, with two other solvers: the system z3 4.8.12 binary (a
+    different build of z3) and the cvc5 1.0 binary (a different solver family).  Returns False on a definite disagreement or an
+    `(error` line from either; unknown/timeouts of a second solver are counted, not fatal."""
+    import os
     import tempfile
-    if os.environ.get('KT_SECOND_SOLVER') != '1' or not os.path.exists('/usr/bin/z3'):
+    if os.environ.get('KT_SECOND_SOLVER') != '1':
         return True
     work = os.path.join(os.path.dirname(os.path.dirname(os.path.abspath(__file__))), '.work')
     os.makedirs(work, exist_ok=True)
     fd, path = tempfile.mkstemp(suffix='.smt2', dir=work)
     try:
         with os.fdopen(fd, 'w') as f:
-            f.write(solver.to_smt2())
-        try:
-            out = subprocess.run(['/usr/bin/z3', '-T:60', path], capture_output=True, text=True, timeout=90).stdout
-        except subprocess.TimeoutExpired:
-            SECOND['inconclusive'] += 1
-            return True
-        first = out.strip().splitlines()[0] if out.strip() else ''
-        if '(error' in out:
-            SECOND['disagree'] += 1
-            return False
-        if first in ('sat', 'unsat'):
-            if first == verdict:
-                SECOND['agree'] += 1
-                return True
-            SECOND['disagree'] += 1
-            return False
-        SECOND['inconclusive'] += 1
-        return True
+            f.write('(set-logic ALL)\n' + solver.to_smt2())
+        ok = True
+        if os.path.exists('/usr/bin/z3'):
+            ok = _run_second(['/usr/bin/z3', '-T:60'], path, verdict, 'z3-4.8.12') and ok
+        import shutil
+        cv = shutil.which('cvc5')
+        if cv:
+            ok = _run_second([cv, '--tlimit=60000'], path, verdict, 'cvc5') and ok
+        return ok
     finally:
         try:
             os.remove(path)
